@@ -304,8 +304,26 @@ def bn_to_pgmpy(case, cls=None):
     m.add_nodes_from(nodes_in)
     for u, v in edges_in:
         m.add_edge(names[u], names[v])
+    past = None
+    if not case.get("keep_insertion_order") and cpds_in and prng.random() < .25:
+        # the network has a past: one variable first had another CPD (same shape), the model was validated and looked at, and
+        # the CPD was then replaced through add_cpds.  Only the current CPDs are part of the network.
+        cand = [c for c in cpds_in if len(c["table"]) > 1]
+        if cand:
+            past = prng.choice(cand)
     for c in cpds_in:
-        m.add_cpds(cpd_to_pgmpy(case, c))
+        if c is past:
+            m.add_cpds(cpd_to_pgmpy(case, dict(c, table=list(reversed(c["table"])))))
+        else:
+            m.add_cpds(cpd_to_pgmpy(case, c))
+    if past is not None:
+        try:
+            m.check_model()
+        except Exception:  # noqa  (incomplete networks are validated by the streams themselves)
+            pass
+        for nm in nodes_in:
+            m.get_cpds(nm)
+        m.add_cpds(cpd_to_pgmpy(case, past))
     if case.get("latents"):
         # declared latent variables change nothing about the distribution: inference must treat them as ordinary hidden nodes
         m.latents = set(m.latents) | {names[v] for v in case["latents"]}
